@@ -75,6 +75,16 @@ func genD(t *rapid.T) hcfg.D {
 			evs := []string{}
 			k.Events = &evs
 		}
+		if rapid.IntRange(0, 3).Draw(t, "watchEvent") == 0 {
+			// the deprecated spelling, alone or next to executeHookOnEvent (which then has priority, also when empty)
+			evs := []string{}
+			for _, e := range []string{"Added", "Modified", "Deleted"} {
+				if rapid.Bool().Draw(t, "wev"+e) {
+					evs = append(evs, e)
+				}
+			}
+			k.WatchEvents = &evs
+		}
 		if rapid.IntRange(0, 2).Draw(t, "onsync") == 0 {
 			k.OnSync = hcfg.B(rapid.Bool().Draw(t, "onsyncv"))
 		}
@@ -453,6 +463,8 @@ func expected(d hcfg.D) map[string]any {
 		evs := []string{"Added", "Modified", "Deleted"}
 		if k.Events != nil {
 			evs = *k.Events
+		} else if k.WatchEvents != nil {
+			evs = *k.WatchEvents
 		}
 		keep := orDefault(k.KeepFull, true)
 		m := map[string]any{"name": hcfg.KubeName(k), "allowFailure": orDefault(k.AllowFail, false), "queue": hcfg.QueueName(k.Queue), "group": k.Group, "includes": d.EffectiveIncludes(k.Includes, k.Group),
